@@ -42,7 +42,7 @@ func (q *rQueue) Push(j quartz.ScheduledJob) error {
 }
 
 func (q *rQueue) gate(n string) {
-	if q.gated.Load() {
+	if q.gated.Load() && (n == "Push" || fromLoop()) {
 		a := rArrival{n, make(chan struct{})}
 		q.arrive <- a
 		<-a.rel
